@@ -280,6 +280,7 @@ var specC27 = vstat.Spec[c27Case]{
 	Gen:         genC27,
 	Check:       checkC27,
 	Inflight:    true,
+	Confirm:     true,
 }
 
 func TestC27(t *testing.T)       { vstat.Check(t, specC27) }
